@@ -246,7 +246,11 @@ func Multi(L int, o Opts, emit func(gts.Location)) {
 						shapes := []gts.Location{
 							gts.Ordered{j, cl}, gts.Ordered{cl, j},
 							gts.Ordered{gts.Complemented{Location: j}, cl},
+							gts.Ordered{cl, gts.Complemented{Location: j}},
 							gts.Joined{gts.Ordered{a.loc, b.loc}, cl},
+							gts.Joined{cl, gts.Ordered{a.loc, b.loc}},
+							gts.Joined{cl, gts.Complemented{Location: j}},
+							gts.Joined{cl, gts.Complemented{Location: gts.Ordered{a.loc, b.loc}}},
 						}
 						for _, s := range shapes {
 							if IsNormal(s) {
